@@ -2562,12 +2562,18 @@ def parse_item(line_tokens):
     elif head in CB_TYPE_INSTRUCTIONS:
         name, rs1, *imm = tokens
         name = name.lower()
+        # behavior is "offset" for branches to labels, as for the 32-bit branches
+        if name in ('c.beqz', 'c.bnez') and len(imm) == 1 and not is_int(imm[0]):
+            imm = ['%offset', imm[0]]
         imm = parse_immediate(imm, line)
         return CBTypeInstruction(line, name, rs1, imm)
     # cj-type instructions
     elif head in CJ_TYPE_INSTRUCTIONS:
         name, *imm = tokens
         name = name.lower()
+        # behavior is "offset" for jumps to labels, as for jal
+        if len(imm) == 1 and not is_int(imm[0]):
+            imm = ['%offset', imm[0]]
         imm = parse_immediate(imm, line)
         return CJTypeInstruction(line, name, imm)
     # pseudo instructions
